@@ -499,3 +499,74 @@ Proof.
 Qed.
 
 End Sound.
+
+(* ------------------------------------------------------------------ function-level statements *)
+Section Functions.
+Variable K : list string.
+Variable p : program.
+
+(* every path of a checked function, from its precondition + any frame ranking below what it may acquire *)
+Theorem check_sound_fn : check_except K p = true ->
+  forall d, In d (funs p) -> mem (fname d) K = false ->
+  forall r tr k r1 F H, exec K p r (fbody d) tr k r1 ->
+    Permutation H (insts r (olist (fpre d)) ++ F) -> frame_ok p F (facq d) ->
+    exists H1, replay (rk p) tr H = Some H1 /\
+               (k = ONormal \/ k = ORet \/ k = OAbort) /\
+               (k = ONormal \/ k = ORet -> Permutation H1 (insts r (olist (fpost d)) ++ F)).
+Proof.
+  intros Hc d Hd Hk r tr k r1 F H Hex Hp Hf.
+  pose proof (check_except_ok K p Hc) as Hok.
+  destruct (fn_ok_inv p d (Hok d Hd Hk)) as (rd & Hcd & S1 & S2 & B1 & B2 & B3 & _).
+  pose proof (sound_stmt K p Hok _ _ _ _ _ Hex _ _ _ _ _ _ Hcd Hp Hf) as Hcon.
+  pose proof (fn_from_stmt p d r tr k r1 F H rd S1 S2 Hcon) as (H1 & Hr & Hpost).
+  exists H1. split; [exact Hr|]. split; [|exact Hpost].
+  destruct Hcon as (H1' & _ & _ & Hk').
+  destruct k; auto; exfalso; destruct (Hk' ltac:(discriminate)) as (A1 & Hg & _); simpl in Hg; congruence.
+Qed.
+
+(* the balanced case, no frame: nothing held at the end, trace disciplined all the way *)
+Corollary check_sound_balance : check_except K p = true ->
+  forall d, In d (funs p) -> mem (fname d) K = false -> fpre d = None -> fpost d = None ->
+  forall r tr k r1, exec K p r (fbody d) tr k r1 ->
+    exists H1, replay (rk p) tr [] = Some H1 /\ (k = ONormal \/ k = ORet \/ k = OAbort) /\ (k <> OAbort -> H1 = []).
+Proof.
+  intros Hc d Hd Hk Hpre Hpost r tr k r1 Hex.
+  destruct (check_sound_fn Hc d Hd Hk r tr k r1 [] [] Hex) as (H1 & Hr & Hkk & Hp).
+  - rewrite Hpre. simpl. apply Permutation_refl.
+  - intros x c [].
+  - exists H1. split; [exact Hr|]. split; [exact Hkk|]. intros Hne.
+    assert (Hk2 : k = ONormal \/ k = ORet) by (destruct Hkk as [|[|]]; auto; congruence).
+    specialize (Hp Hk2). rewrite Hpost in Hp. simpl in Hp. apply Permutation_nil. apply Permutation_sym. exact Hp.
+Qed.
+End Functions.
+
+(* ------------------------------------------------------------------ what a disciplined trace guarantees *)
+Lemma replay_split rank t1 t2 H H2 : replay rank (t1 ++ t2) H = Some H2 ->
+  exists Hm, replay rank t1 H = Some Hm /\ replay rank t2 Hm = Some H2.
+Proof.
+  revert H. induction t1 as [|e t IH]; intros H; simpl.
+  - intros X. exists H. split; [reflexivity | exact X].
+  - destruct e as [i|i].
+    + destruct (forallb (fun h => Nat.ltb (rank (fst h)) (rank (fst i))) H); [apply IH | discriminate].
+    + destruct (remove1 i H); [apply IH | discriminate].
+Qed.
+
+(* counters stay in {0,1}: no instance is ever held twice by the thread, at any point of the trace *)
+Lemma replay_nodup rank tr : forall H H1, NoDup H -> replay rank tr H = Some H1 -> NoDup H1.
+Proof.
+  induction tr as [|e t IH]; intros H H1 Hn; simpl.
+  - intros X; inversion X; subst; exact Hn.
+  - destruct e as [i|i].
+    + destruct (forallb (fun h => Nat.ltb (rank (fst h)) (rank (fst i))) H) eqn:E; [|discriminate].
+      apply IH. constructor; [|exact Hn]. intros Hin. rewrite forallb_forall in E. specialize (E i Hin).
+      apply Nat.ltb_lt in E. lia.
+    + destruct (remove1 i H) as [H'|] eqn:E; [|discriminate]. apply IH.
+      apply remove1_some in E. eapply Permutation_NoDup in Hn; [|exact E]. inversion Hn; assumption.
+Qed.
+
+Theorem disciplined_prefixes rank tr H1 : replay rank tr [] = Some H1 ->
+  forall t1 t2, tr = t1 ++ t2 -> exists Hm, replay rank t1 [] = Some Hm /\ NoDup Hm.
+Proof.
+  intros Hr t1 t2 ->. destruct (replay_split _ _ _ _ _ Hr) as (Hm & E1 & _). exists Hm. split; [exact E1|].
+  eapply replay_nodup; [constructor | exact E1].
+Qed.
